@@ -12,14 +12,12 @@ from allmydata.interfaces import InsufficientVersionError
 from allmydata.introducer.interfaces import IIntroducerClient, \
      RIIntroducerSubscriberClient_v2
 from allmydata.introducer.common import sign_to_foolscap, unsign_from_foolscap,\
-     UnknownKeyError,\
      get_tubid_string_from_ann
 from allmydata.util import log, yamlutil, connection_status
 from allmydata.util.rrefutil import add_version_to_remote_reference
 from allmydata.util.observer import (
     ObserverList,
 )
-from allmydata.crypto.error import BadSignature
 from allmydata.util.assertutil import precondition
 
 class InvalidCacheError(Exception):
@@ -252,14 +250,22 @@ class IntroducerClient(service.Service, Referenceable):
                 ann, key_s = unsign_from_foolscap(ann_t)
                 # key is "v0-base32abc123"
                 precondition(isinstance(key_s, bytes), key_s)
-            except (BadSignature, UnknownKeyError, ValueError, TypeError, AssertionError):
-                # (UnknownKeyError, or an undecodable key/signature/body)
+            except Exception:
+                # (BadSignature, UnknownKeyError, or a key/signature/body of
+                # the wrong type, shape or encoding)
                 self.log("bad signature on inbound announcement: %s" % (ann_t,),
                          parent=lp, level=log.WEIRD, umid="ZAU15Q")
                 # process other announcements that arrived with the bad one
                 continue
 
-            self._process_announcement(ann, key_s)
+            try:
+                self._process_announcement(ann, key_s)
+            except Exception as e:
+                # correctly signed but malformed (not a dict, no
+                # service-name, ...): skip it and process the others too
+                self.log("unable to process inbound announcement (%r): %s"
+                         % (e, ann_t),
+                         parent=lp, level=log.WEIRD, umid="ZAU16Q")
 
     def _process_announcement(self, ann, key_s):
         precondition(isinstance(key_s, bytes), key_s)
